@@ -476,7 +476,52 @@ func SuccessReturns(fn *ssa.Function) []*ssa.Return {
 // helpers for atoms
 
 // CallEvent builds an Event that fires on a call whose site descriptor satisfies pred.
+//
+// A positive event (val == T, "it happened") also fires on a call to a repository function that
+// performs a matching call on every one of its success paths (a wrapper that always does X counts
+// as X; bounded to helpers of helpers). Negative / resetting events are matched at the site only.
 func (P *Prog) CallEvent(pred func(*CallSite) bool, val int8) func(ssa.Instruction) (bool, int8) {
+	memo := map[*ssa.Function]bool{}
+	var always func(fn *ssa.Function, depth int) bool
+	always = func(fn *ssa.Function, depth int) bool {
+		if v, ok := memo[fn]; ok {
+			return v
+		}
+		memo[fn] = false // recursion guard
+		if fn == nil || len(fn.Blocks) == 0 || !P.isRepoFunc(fn) {
+			return false
+		}
+		ps := AnalyzePaths(fn, []Atom{{Name: "done", Event: func(in ssa.Instruction) (bool, int8) {
+			c, ok := in.(ssa.CallInstruction)
+			if !ok {
+				return false, U
+			}
+			if _, isGo := in.(*ssa.Go); isGo {
+				return false, U
+			}
+			if _, isDefer := in.(*ssa.Defer); isDefer {
+				return false, U
+			}
+			if cs := P.siteOf(c); cs != nil && pred(cs) {
+				return true, T
+			}
+			if depth < 2 {
+				if callees := P.CalleesOfCall(c); len(callees) == 1 && always(callees[0], depth+1) {
+					return true, T
+				}
+			}
+			return false, U
+		}}})
+		rets := SuccessReturns(fn)
+		ok := len(rets) > 0
+		for _, ret := range rets {
+			if bad := ps.Require(ret, func(v map[string]bool) bool { return v["done"] }); len(bad) > 0 {
+				ok = false
+			}
+		}
+		memo[fn] = ok
+		return ok
+	}
 	return func(in ssa.Instruction) (bool, int8) {
 		c, ok := in.(ssa.CallInstruction)
 		if !ok {
@@ -485,6 +530,17 @@ func (P *Prog) CallEvent(pred func(*CallSite) bool, val int8) func(ssa.Instructi
 		cs := P.siteOf(c)
 		if cs != nil && pred(cs) {
 			return true, val
+		}
+		if val == T {
+			if _, isGo := in.(*ssa.Go); isGo {
+				return false, U
+			}
+			if _, isDefer := in.(*ssa.Defer); isDefer {
+				return false, U
+			}
+			if callees := P.CalleesOfCall(c); len(callees) == 1 && always(callees[0], 0) {
+				return true, val
+			}
 		}
 		return false, U
 	}
